@@ -16,7 +16,9 @@ CONSTANTS Client,          \* clients; each keeps the session cookie it was give
           Names,           \* cookie names the backend may set
           L,               \* cache capacity (--session-cookie-cache-limit)
           MaxReq,          \* requests per client
-          UnlockedLookup   \* deviation: cache lookup and insert are unsynchronised separate steps
+          UnlockedLookup,  \* deviation: cache lookup and insert are unsynchronised separate steps
+          StripSetCookie,  \* TRUE (the code): WriteHeader removes the backend's Set-Cookie headers from the client's response
+          StripSessionCookie \* TRUE (the code): restoreSession removes the agent's own session cookie before the backend sees the request
 
 NoSid == <<"nosid">>
 Sids == {<<"sid", c, k>> : c \in Client, k \in 1..MaxReq}   \* fresh IDs: issued for client c's k-th request
@@ -78,7 +80,7 @@ CacheAdd(c) ==               \* second half of an unsynchronised lookup
 
 Backend(c, sets) ==          \* restoreSession + backend: sees the jar's cookies, answers with Set-Cookie ops
   /\ pc[c][1] = "restored"
-  /\ seen' = [seen EXCEPT ![c] = jar[rjar[c]]]
+  /\ seen' = [seen EXCEPT ![c] = jar[rjar[c]] \cup (IF StripSessionCookie \/ cookie[c] = NoSid THEN {} ELSE {<<"SESSION", cookie[c]>>})]
   /\ pc' = [pc EXCEPT ![c] = <<"header", sets>>]
   /\ UNCHANGED <<cookie, sent, lru, jar, rsid, rjar, leaked, issued, fatal>>
 
@@ -90,7 +92,8 @@ Header(c) ==                 \* sessionResponseWriter.WriteHeader: strip Set-Coo
             /\ cookie' = [cookie EXCEPT ![c] = <<"sid", c, sent[c]>>]
        ELSE UNCHANGED <<rsid, issued, cookie>>
   /\ pc' = [pc EXCEPT ![c] = <<"store", pc[c][2]>>]
-  /\ UNCHANGED <<sent, lru, jar, rjar, seen, leaked, fatal>>
+  /\ leaked' = IF StripSetCookie THEN leaked ELSE leaked \cup {<<c, n>> : n \in pc[c][2]}
+  /\ UNCHANGED <<sent, lru, jar, rjar, seen, fatal>>
 
 Store(c) ==                  \* second lookup + jar.SetCookies: cookies are tagged with the session they belong to
   /\ pc[c][1] = "store"
@@ -114,7 +117,9 @@ NoLeak == leaked = {}
 \* a client is issued a session cookie only when it presented none
 IssuedOnce == \A c \in Client : issued[c] <= 1
 \* the backend only ever sees cookies that were set in the session the request belongs to
-Isolation == \A c \in Client : \A p \in seen[c] : p[2] = rjar[c] /\ (rjar[c] = NoSid => seen[c] = {})
+Isolation == \A c \in Client : \A p \in seen[c] : p[1] # "SESSION" => (p[2] = rjar[c] /\ (rjar[c] = NoSid => seen[c] = {}))
+\* the agent's own session cookie is never shown to the backend
+SessionCookieHidden == \A c \in Client : \A p \in seen[c] : p[1] # "SESSION"
 \* the first request of a client (no session cookie yet) sees an empty jar
 NoFatal == ~fatal
 =============================================================================
